@@ -20,7 +20,7 @@ FORBIDDEN = re.compile(r"\b(sorry|admit|native_decide|bv_decide|implemented_by|u
 TRUSTED_BASE = [
     "Lean 4.33.0 kernel (lake build; leanchecker re-check in the thorough tier)",
     "axioms allowed in property theorems: propext, Classical.choice, Quot.sound (audited with #print axioms on every run); no sorry/admit/axiom/native_decide/bv_decide",
-    "translator harness/extract.py (Generated/*.lean regenerated from /repo on every run: tables, enums, constants) and harness/pytrans.py (Generated/Codec.lean: 33 functions translated from the source text - codecs, the loop body of data_received, write(), the message-id counter, Response.validate and the dispatch of Response._construct; Lemmas/CodecEq*.lean prove them equal to the hand-written Model for all inputs; Python operator semantics in Py/Ops.lean; the loop skeleton of data_received and the canonical forms of the translator - sorted conjunctions, oriented comparisons, find() results - are checked syntactically / by small lemmas, not verified end to end; a function whose equality does not check for the current text falls back to the correspondence tie and is listed in evidence.translator)",
+    "translator harness/extract.py (Generated/*.lean regenerated from /repo on every run: tables, enums, constants) and harness/pytrans.py (Generated/Codec.lean: 34 functions translated from the source text - codecs, the loop body of data_received, write(), the message-id counter, Response.validate and the dispatch of Response._construct; Lemmas/CodecEq*.lean prove them equal to the hand-written Model for all inputs; Python operator semantics in Py/Ops.lean; the loop skeleton of data_received and the canonical forms of the translator - sorted conjunctions, oriented comparisons, find() results - are checked syntactically / by small lemmas, not verified end to end; a function whose equality does not check for the current text falls back to the correspondence tie and is listed in evidence.translator)",
     "correspondence harness (generators, canonicalisers, virtual-time loop, fake transports) ties the hand-written Model to the real code by differential testing",
     "CPython, asyncio, pycryptodome, hashlib, httpx, argparse, ast.literal_eval, xml.etree, ipaddress are modelled, not verified",
 ]
@@ -91,7 +91,7 @@ THEOREM_FUNCS = {
     "encodeHandshakeRequest_eq": ["encodeHandshakeRequest"], "encodeEncryptedRequest_eq": ["encodeEncryptedRequest"],
     "decodeHandshakeResponse_eq": ["decodeHandshakeResponse"], "decodeEncryptedResponse_eq": ["decodeEncryptedResponse"],
     "processPacket_eq": ["processPacket"], "getLocalKey_eq": ["getLocalKey"], "packetEncode_eq": ["packetEncode"],
-    "packetDecode_eq": ["packetDecode"], "reasmStep_eq": ["reasmStep"], "writeV3_eq": ["writeV3"], "nextMessageId_eq": ["nextMessageId"], "responseValidate_eq": ["responseValidate"], "constructDispatch_eq": ["constructDispatch"], "getDeviceVersion_eq": ["getDeviceVersion"], "constructOuter_eq": ["constructOuter"], "parseHumidity_eq": ["parseHumidity"], "securitySign_eq": ["securitySign"], "securityUdpid_eq": ["securityUdpid"],
+    "packetDecode_eq": ["packetDecode"], "reasmStep_eq": ["reasmStep"], "writeV3_eq": ["writeV3"], "nextMessageId_eq": ["nextMessageId"], "responseValidate_eq": ["responseValidate"], "constructDispatch_eq": ["constructDispatch"], "getDeviceVersion_eq": ["getDeviceVersion"], "constructOuter_eq": ["constructOuter"], "parseHumidity_eq": ["parseHumidity"], "securitySign_eq": ["securitySign"], "securityUdpid_eq": ["securityUdpid"], "updateState_eq": ["updateState"], "updateOfAttrs_ofModel": ["updateState"],
 }
 ALL_TRANSLATED = sorted({f for fs in THEOREM_FUNCS.values() for f in fs})
 
@@ -270,7 +270,7 @@ FUNC_PROPS = {
     "writeV3": {"C07", "C01"}, "reasmStep": {"C04", "C09", "C01"}, "packetEncode": {"C02", "C01"},
     "packetDecode": {"C02", "C03", "C09", "C01"}, "responseValidate": {"C13", "C14"}, "constructDispatch": {"C13", "C14", "C01"},
     "constructOuter": {"C14"}, "parseHumidity": {"C14"}, "nextMessageId": {"C12"}, "getDeviceVersion": {"C17", "C18"},
-    "securitySign": {"C02", "C03"}, "securityUdpid": {"C17", "C19"},
+    "securitySign": {"C02", "C03"}, "securityUdpid": {"C17", "C19"}, "updateState": {"C11", "C01"},
 }
 
 
